@@ -33,16 +33,16 @@ func enumStrings(alpha []byte, maxLen int, f func([]byte)) {
 
 // prefixes reaching every mode of sen/maps.go (the comment names the mode after the prefix)
 var modePrefixes = []string{
-	"",                // value
+	"",                      // value
 	"a", "ab", "nul", "tru", // token
 	"{a", "{\"a\"", "{'a'", // token in key position / colon
 	"{a ", "{a\n", // colon
 	"{a:", "{a:1 ", // value in object
-	"-",  // neg
+	"-",       // neg
 	"0", "-0", // zero
 	"1", "12", "-3", "922337203685477580", // digit
 	"12345678901234567890.", // dot (big)
-	"1.", "1.5", "0.25", // frac
+	"1.", "1.5", "0.25",     // frac
 	"1e", "1.5E", // expSign
 	"1e+", "1e-", // expZero
 	"1e5", "1.5e-07", // exp
@@ -69,7 +69,6 @@ var contexts = [][2]string{
 }
 
 var suffixesQuick = []string{"", " 1"}
-
 
 var suffixesFull = []string{"", " 1", "\"", "a", "]", ":1}", ")", "\n,:1}"}
 
